@@ -12,10 +12,12 @@ import (
 	"fmt"
 	"math/rand"
 	"os"
+	"runtime/debug"
 	"sort"
 	"strconv"
 	"strings"
 	"syscall"
+	"time"
 )
 
 // a stream: a generator of ops and the implementation-side evaluator of one op
@@ -90,6 +92,8 @@ func main() {
 // loses nothing: the parent sees how many lines were answered, records PANIC
 // for the next one and restarts the worker on the rest.
 func runImpl() {
+	// an unbounded recursion in the code under test should overflow quickly (default limit: 1 GB)
+	debug.SetMaxStack(128 << 20)
 	in := bufio.NewReaderSize(os.Stdin, 1<<20)
 	// keep the protocol channel private: the code under test logs to os.Stdout
 	fd, err := syscall.Dup(1)
@@ -104,7 +108,7 @@ func runImpl() {
 		line, err := in.ReadString('\n')
 		if len(line) > 0 {
 			line = strings.TrimRight(line, "\n")
-			res := evalOp(line)
+			res := evalOpWatched(line)
 			out.WriteString(res)
 			out.WriteByte('\n')
 			if strings.HasPrefix(res, "HANG") || strings.HasPrefix(res, "DEADLOCK") {
@@ -119,6 +123,19 @@ func runImpl() {
 		if err != nil {
 			return
 		}
+	}
+}
+
+// evalOpWatched bounds every op: code under test that does not terminate is reported as HANG (and the
+// worker is replaced, see runImpl).
+func evalOpWatched(line string) string {
+	done := make(chan string, 1)
+	go func() { done <- evalOp(line) }()
+	select {
+	case r := <-done:
+		return r
+	case <-time.After(60 * time.Second):
+		return "HANG"
 	}
 }
 
